@@ -51,7 +51,7 @@ def plan(tier):
         specs += [{"part": "hist", "n": 130, "i": i, "strict": i % 2 == 0} for i in range(7)]
         return specs
     specs = [{"part": "table", "mtu": m, "kmax": 12, "stride": 1, "off": 0} for m in TABLE_MTUS]
-    specs += [{"part": "hist", "n": 700, "i": i, "strict": i % 2 == 0} for i in range(16)]
+    specs += [{"part": "hist", "n": 5000, "i": i, "strict": i % 2 == 0} for i in range(16)]
     specs += [{"part": "huge"}]
     return specs
 
